@@ -90,7 +90,8 @@ def plans(prop, rng, S, clean):
     if prop == "C09":
         q = rng.choice((0, 1))
         h = rng.choice((0, 1))  # ERR_LOG with and without an error handler
-        return [{"filter": 7, "quit": q, "parsing": 1, "handler": h}] + [{"filter": 7, "quit": q, "parsing": 1, "cut": k, "handler": h} for k in range(n + 1)]
+        f = rng.choice((7, 7, 7, 1, 2, 3, 4, 5, 6))  # the claim holds under every protocol mask (the same for the uncut and the cut runs)
+        return [{"filter": f, "quit": q, "parsing": 1, "handler": h}] + [{"filter": f, "quit": q, "parsing": 1, "cut": k, "handler": h} for k in range(n + 1)]
     if prop == "C11":
         return [{"filter": 7, "quit": 1, "parsing": 1}] + [{"filter": f, "quit": 1, "parsing": p} for f in range(8) for p in (1, 0)]
     if prop == "C12":
@@ -156,6 +157,13 @@ def reader_check(ctx, prop):
             yield ("runs", c)
             if prop == "C06" and k % 4 == 0:
                 yield ("runs", dict(c, streamkind="sock", conf=0))
+            if prop in ("C06", "C07", "C12") and k % 3 == 1 and len(recipe) > 2:
+                # a growing stream: the data pauses (the read there returns nothing once) and continues; the application iterates the
+                # same reader again.  C06 / C12: pauses on frame boundaries only; C07 (any stream whatsoever): anywhere
+                bounds = [x["b"] for x in recipe[:-1]]
+                ps = sorted(set(rng.sample(bounds, min(len(bounds), rng.randrange(1, 4))))) if prop != "C07" else \
+                    sorted(set(rng.randrange(1, len(S)) for _ in range(rng.randrange(1, 4))))
+                yield ("runs", dict(c, streamkind="min", conf=0, pauses=ps))
             if prop in ("C12", "C08") and k % 3 == 0 and len(S) > 8:
                 # the same stream delivered in bursts (a serial port with timeout: read(n) may return fewer bytes before the end)
                 b = dict(c)
@@ -214,13 +222,48 @@ def reader_check(ctx, prop):
                 pos += len(fr)
             S = b"".join(fr for fr, _ in parts)
             c = {"prop": prop, "S": S.hex(), "recipe": rec, "plan": plans(prop, rng, S, True), "conf": 1 if prop in ("C06", "C07") else 0,
-                 "streamkind": ("min", "bytesio", "pipe")[(k // 3) % 3]}
+                 "streamkind": (("min", "bytesio", "pipe") if prop == "C06" else ("min", "sock", "bytesio", "pipe", "sock"))[(k // 3) % (3 if prop == "C06" else 5)]}
             yield ("runs", c)
             if prop == "C06":
                 # the same stream through a socket (the reader wraps it): clean streams must come out the same way
                 yield ("runs", dict(c, streamkind="sock", conf=0))
             if prop in ("C06", "C11", "C12"):
                 yield ("runs", dict(c, validate=0, msgmode=(k // 3) % 4))
+
+    def gen_odd():
+        """frames of EVERY payload definition of the tree whose payload is 1-3 bytes longer or shorter than the definition (valid framing):
+        whatever the payload decoder makes of them, the reader must carry on with the frames behind them"""
+        from ..common import frame as _frame
+        from ..drivers import walk as _walk
+
+        ctx.defs_file()
+        odd = []
+        for l in _walk.load_layouts(ctx, "MC_Walk_quick.cfg"):
+            if not (l["reachable"] and l["pbf"] and l["c"] == 1 and l["m"] == 0):
+                continue
+            P = _walk.fill(l, "rand", rng, ctx.defs["cfgdb"])
+            if len(P) > 400:
+                continue
+            k = 1 + (len(odd) % 3)
+            odd.append((_frame(l["cls"], l["id"], P + rng.randbytes(k)), "UBX"))
+            if len(P) > k:
+                odd.append((_frame(l["cls"], l["id"], P[:-k]), "UBX"))
+        nm = st.nmea_line("GNGLL,5327.04319,N,00214.41396,W,223232.00,A,A")
+        step = 10 if prop != "C09" else 2
+        for k in range(0, len(odd), step):
+            if prop == "C09" and k % 40:
+                continue
+            parts = []
+            for x in odd[k:k + step]:
+                parts += [x, (nm, "NMEA")]
+            pos = 0
+            rec = []
+            for fr, pp in parts:
+                rec.append({"a": pos, "b": pos + len(fr), "p": pp, "ok": -1, "dd": "", "fam": ""})
+                pos += len(fr)
+            S = b"".join(fr for fr, _ in parts)
+            yield ("runs", {"prop": prop, "S": S.hex(), "recipe": rec, "plan": plans(prop, rng, S, True), "conf": 0,
+                            "streamkind": ("min", "bytesio", "pipe", "sock")[(k // step + (k // 40 if prop == "C09" else 0)) % (4 if prop != "C06" else 3)]})
 
     def gen_long():
         """long runs: more than a thousand consecutive frames of one protocol / rejected frames / noise bytes between two others
@@ -254,6 +297,7 @@ def reader_check(ctx, prop):
         run_batch(ctx, MODULE, CFG, gen_nested(), st.OBSERVERS, sigfn, neg, chunk=40 if prop == "C09" else 120, neg_every=7)
     if prop != "C09":
         run_batch(ctx, MODULE, CFG, gen_long(), st.OBSERVERS, sigfn, neg, chunk=4, neg_every=2)
+    run_batch(ctx, MODULE, CFG, gen_odd(), st.OBSERVERS, sigfn, neg, chunk=40 if prop in ("C09", "C11") else 120, neg_every=7)
     run_batch(ctx, MODULE, CFG, gen_tour(), st.OBSERVERS, sigfn, neg, chunk=40 if prop in ("C09", "C11") else 120, neg_every=7)
     run_batch(ctx, MODULE, CFG, gen_big(), st.OBSERVERS, sigfn, neg, chunk=40 if prop in ("C09", "C11") else 120, neg_every=7)
     ctx.exhaustive = False
